@@ -5,9 +5,10 @@ import re
 import common
 import coq_cases
 import flowgen
+import parsig_common
 import sig_common
 
-DEP_FILES = ["ValidateModel.v", "ValidateProofs.v", "ValidateWalk.v", "SignatureModel.v", "SignatureProofs.v"]
+DEP_FILES = ["ValidateModel.v", "ValidateProofs.v", "ValidateWalk.v", "SignatureModel.v", "SignatureProofs.v", "ParSigModel.v", "ParSigProofs.v"]
 
 CLASSES = [
     ("DupParam", r"already provided to cff\.Params"),
@@ -82,12 +83,20 @@ def run(chk):
     os.makedirs(pkg)
     ntypes = 2 + max(max([-1] + f.params + f.results + [x for t in f.tasks for x in t["ins"] + t["outs"] + (t["pred"] or [])]) for f in flows)
     open(os.path.join(pkg, "types.go"), "w").write(flowgen.render_types_file(ntypes))
+    def is_test(i):
+        return i % 9 == 4          # some flows live in in-package test files (processed in the package's test variant)
+
+    def src_name(i):
+        return "f%04d_test.go" % i if is_test(i) else "f%04d.go" % i
+
+    def gen_name(i):
+        return "f%04d_gen_test.go" % i if is_test(i) else "f%04d_gen.go" % i
     for i, f in enumerate(flows):
-        open(os.path.join(pkg, "f%04d.go" % i), "w").write(flowgen.render_validator_file(i, f))
+        open(os.path.join(pkg, src_name(i)), "w").write(flowgen.render_validator_file(i, f))
     rc, out = common.run_cff(mod, "./vflows")
     permsgs = {}
     for line in out.split("\n"):
-        m = re.search(r"vflows/f(\d+)\.go:\d+:\d+: (.*)", line)
+        m = re.search(r"vflows/f(\d+)(?:_test)?\.go:\d+:\d+: (.*)", line)
         if m:
             permsgs.setdefault(int(m.group(1)), []).append(m.group(2))
     if "panic:" in out or "goroutine 1 [" in out:
@@ -101,7 +110,7 @@ def run(chk):
     for i, (f, mv) in enumerate(zip(flows, model)):
         verdict, wf, classes = [x.strip() for x in mv.split("|")]
         mclasses = set(c for c in classes.split(",") if c)
-        accepted_impl = os.path.exists(os.path.join(pkg, "f%04d_gen.go" % i))
+        accepted_impl = os.path.exists(os.path.join(pkg, gen_name(i)))
         iclasses = classify(permsgs.get(i, []))
         chk.count(1, key=f.model_line(), nontrivial=True)
         dist["accepted" if accepted_impl else "rejected"] += 1
@@ -113,15 +122,15 @@ def run(chk):
             chk.fail_no_input("model validate and the declarative rules disagree on %s (theorem C14_sound_complete would be false)" % f.model_line(),
                               {"theorem": "C14_sound_complete", "flow": f.model_line(), "model": mv})
             break
+        if not accepted_impl and not permsgs.get(i):
+            chk.violate("cff wrote no output for %s and reported no diagnostic naming it: %s" % (src_name(i), f.model_line()),
+                        {"flow": f.model_line(), "file": src_name(i), "well_formed_by_the_rules": wf_model, "output_tail": out[-2000:]})
+            break
         if accepted_impl != wf_model:
             what = ("cff accepted an ill-formed flow" if accepted_impl else "cff rejected a well-formed flow")
             chk.violate("%s (%s): %s" % (what, f.label, f.model_line()),
                         {"flow": f.model_line(), "label": f.label, "go_source": flowgen.render_validator_file(i, f),
                          "cff_messages": permsgs.get(i, []), "model_verdict": mv, "well_formed_by_the_rules": wf_model})
-            break
-        if not accepted_impl and not permsgs.get(i):
-            chk.violate("cff rejected a flow without a diagnostic naming its file: %s" % f.model_line(),
-                        {"flow": f.model_line(), "output_tail": out[-2000:]})
             break
         if iclasses != mclasses and class_diff is None:
             # same verdict, different reasons: a broken correspondence, not yet a violation - keep looking
@@ -132,7 +141,7 @@ def run(chk):
     if class_diff is not None and not chk.violations:
         chk.fail_no_input(*class_diff)
     # the exit status of the run over all files: non-zero exactly when some file was rejected
-    nrej = sum(1 for i in range(len(flows)) if not os.path.exists(os.path.join(pkg, "f%04d_gen.go" % i)))
+    nrej = sum(1 for i in range(len(flows)) if not os.path.exists(os.path.join(pkg, gen_name(i))))
     if not chk.violations and (rc != 0) != (nrej > 0):
         chk.violate("cff exited with status %d although %d of the %d files of the package were rejected" % (rc, nrej, len(flows)),
                     {"exit_status": rc, "rejected_files": nrej, "output_tail": out[-1500:]})
@@ -173,6 +182,10 @@ def run(chk):
     if not chk.violations:
         sig_common.apply(chk, mod)
         sigcov = chk.cov.get("correspondence", {}).get("signatures")
+    parsigcov = None
+    if not chk.violations:
+        parsig_common.apply(chk, mod)
+        parsigcov = chk.cov.get("correspondence", {}).get("parallel_signatures")
     prev = dict(chk.cov.get("correspondence", {}))
     xc = chk.cov.get("correspondence", {}).get("extraction_cross_check")
     chk.cov["correspondence"] = {
@@ -184,6 +197,8 @@ def run(chk):
         chk.cov["correspondence"]["extraction_cross_check"] = xc
     if sigcov:
         chk.cov["correspondence"]["signatures"] = sigcov
+    if parsigcov:
+        chk.cov["correspondence"]["parallel_signatures"] = parsigcov
     for k, v in prev.items():
         if k.startswith("extraction_cross_check"):
             chk.cov["correspondence"][k] = v
